@@ -57,6 +57,11 @@ class _Mon:
         self.c07_checked = 0
         self.snap_phase = {}
         self.fix_calls = []
+        self.fix_phases = []
+        self.prov = {}
+        self.known_ids = None
+        self.keep = []
+        self.phase_start_lines = {}
         self.skip_c10 = False
 
 
@@ -225,7 +230,7 @@ def _c03(rule, rid, groups, before, after, ca, cb, ka, kb, la, lb):
         kinds = set()
         for x, y in zip(la, lb):
             if x.value != y.value:
-                if x.kind != "id" or y.kind != "id":
+                if x.kind not in ("id", "junk") or y.kind not in ("id", "junk"):
                     # bit-string literals and based/abstract literals are documented case targets of dedicated rules
                     if x.kind in ("bitstr", "num") and y.kind == x.kind and rid.split("_")[0] in ("bit", "exponent", "based"):
                         continue
@@ -290,6 +295,9 @@ def _wrap_fix(orig):
             ev = {"rule": rid, "reported": None, "updates": 0}
             MON.cur = ev
             MON.fix_calls.append(rid)
+            MON.fix_phases.append((rid, self.phase))
+            if "C13" in MON.props and self.phase not in MON.phase_start_lines:
+                MON.phase_start_lines[self.phase] = oFile.get_lines()[1:]
             if self.disable or self.severity.type != severity.error_type:
                 _add("C03", {"rule": rid, "kind": "fix_entered_for_disabled_or_warning_rule"}, {})
             try:
@@ -300,6 +308,8 @@ def _wrap_fix(orig):
             after = _model_text(oFile)
             if len(oFile.lAllObjects) != n_before:
                 MON.token_count_changed = True
+            if "C08" in MON.props:
+                _provenance(oFile, rid)
             if before != after:
                 analyse_application(self, rid, before, after, ev["reported"])
                 if "C10" in MON.props and not MON.skip_c10:
@@ -319,6 +329,18 @@ def _wrap_fix(orig):
 
     fix._verif_wrapped = True
     return fix
+
+
+def _provenance(oFile, rid):
+    """remember which rule application created each token object (for C08 signatures)"""
+    objs = oFile.lAllObjects
+    if MON.known_ids is None:
+        MON.known_ids = set()
+    new = [o for o in objs if id(o) not in MON.known_ids]
+    for o in new:
+        MON.known_ids.add(id(o))
+        MON.prov[id(o)] = rid
+        MON.keep.append(o)
 
 
 def _c10_probe(rule, orig, oFile, dFixOnly, rid, after):
@@ -347,6 +369,8 @@ def _wrap_analyze(orig):
         if not MON.active or MON.depth > 0:
             return orig(self, oFile)
         # top-level analyze (warning-severity rules inside rule_list.fix, or check runs)
+        if "C13" in MON.props and self.phase not in MON.phase_start_lines:
+            MON.phase_start_lines[self.phase] = oFile.get_lines()[1:]
         before = _model_text(oFile)
         r = orig(self, oFile)
         after = _model_text(oFile)
@@ -478,7 +502,7 @@ def token_sig(f):
     return [(type(o).__module__.replace("vsg.", "") + "." + type(o).__name__, o.get_value(), getattr(o, "indent", None)) for o in f.lAllObjects]
 
 
-def run(text, style=None, conf=None, props=ALL_PROPS, fix_phase=7, max_passes=5):
+def run(text, style=None, conf=None, props=ALL_PROPS, fix_phase=7, max_passes=5, skip_phase=None, fix_only=None):
     """returns obs: {rejected|crash|..., failures:{prop:[...]}, labels, fired, out_text}"""
     install()
     obs = {"failures": {p: [] for p in props}, "labels": {}, "fired": {}, "changed": False}
@@ -510,11 +534,14 @@ def run(text, style=None, conf=None, props=ALL_PROPS, fix_phase=7, max_passes=5)
         return obs
     in_text = _model_text(f)
     MON.last_text = in_text
+    if "C08" in props:
+        MON.known_ids = set(map(id, f.lAllObjects))
+        MON.keep.extend(f.lAllObjects)
     MON.active = True
     crash = None
     t0 = time.time()
     try:
-        rl.fix(fix_phase)
+        rl.fix(fix_phase, skip_phase, fix_only)
     except Exception as e:
         fr = vsgapi.innermost_vsg_frame(e)
         crash = {"exc": type(e).__name__, "where": "%s:%s" % (fr[0], fr[1]), "rule": (MON.fix_calls[-1] if MON.fix_calls else None), "msg": str(e)[:200]}
@@ -556,7 +583,7 @@ def run(text, style=None, conf=None, props=ALL_PROPS, fix_phase=7, max_passes=5)
         if corrupt:
             obs["labels"]["excluded_downstream_by_corruption"] = 1
     for p in props:
-        obs["failures"][p] = MON.fail[p]
+        obs["failures"][p] = MON.fail.get(p, [])
     obs["fired"] = dict(MON.fired)
     obs["labels"].update(MON.labels)
     obs["labels"]["c18_index_checks"] = MON.c18_checks
@@ -564,6 +591,10 @@ def run(text, style=None, conf=None, props=ALL_PROPS, fix_phase=7, max_passes=5)
     obs["c10_probes"] = MON.c10_probes
     obs["c07_checked"] = MON.c07_checked
     obs["allow_fired"] = MON.allow_fired
+    obs["fix_phases"] = list(MON.fix_phases)
+    obs["phase_start_lines"] = dict(MON.phase_start_lines)
+    obs["rule_list"] = rl
+    obs["file"] = f
     return obs
 
 
@@ -583,11 +614,13 @@ def _c08(f, c, cla, style, conf, out_lines):
         i = next((i for i, (x, y) in enumerate(zip(a, b)) if x[:2] != y[:2]), min(len(a), len(b)))
         x = a[i] if i < len(a) else ("<end>", "", None)
         y = b[i] if i < len(b) else ("<end>", "", None)
-        MON.fail["C08"].append({"sig": {"kind": "token_level", "model": x[0], "reparsed": y[0]}, "detail": {"at": i, "model": a[max(0, i - 3) : i + 3], "reparsed": b[max(0, i - 3) : i + 3]}})
+        prod = MON.prov.get(id(f.lAllObjects[i]), "parse_or_cleanup") if i < len(f.lAllObjects) else "end"
+        kind = "empty_whitespace_token_in_model" if (x[0] == "parser.whitespace" and x[1] == "") else "token_level"
+        MON.fail["C08"].append({"sig": {"kind": kind, "producer": prod, "model": x[0]}, "detail": {"at": i, "reparsed_class": y[0], "model": a[max(0, i - 3) : i + 3], "reparsed": b[max(0, i - 3) : i + 3]}})
         return
     for i, (x, y) in enumerate(zip(a, b)):
         if x[2] != y[2]:
-            MON.fail["C08"].append({"sig": {"kind": "indent_level", "token": x[0]}, "detail": {"at": i, "model": x, "reparsed": y, "context": [t[1] for t in a[max(0, i - 4) : i + 3]]}})
+            MON.fail["C08"].append({"sig": {"kind": "indent_level", "token": x[0], "producer": MON.prov.get(id(f.lAllObjects[i]), "parse_or_cleanup")}, "detail": {"at": i, "model": x, "reparsed": y, "context": [t[1] for t in a[max(0, i - 4) : i + 3]]}})
             return
 
 
